@@ -105,6 +105,8 @@ type VC struct {
 	loopStack []int
 	frames    []*frame
 	assumptionsUsed map[string]bool
+	tolerant        bool // evaluating an exit clause: unresolved names are counted, not reported
+	missingNames    int
 	boxFuncs  map[string]bool
 	ufuns     map[string]bool
 	outParams []*types.Var
